@@ -1825,6 +1825,14 @@ fn read_residuals<R: BitRead, I: SignedInteger>(
         let partition_order = reader.read::<4, u32>()?;
         let partition_count = 1 << partition_order;
 
+        // the block must divide evenly into partitions
+        // and each partition must be larger than the predictor order
+        if !block_size.is_multiple_of(partition_count)
+            || block_size / partition_count <= predictor_order
+        {
+            return Err(Error::InvalidPartitionOrder);
+        }
+
         let partitions = residuals.rchunks_mut(block_size / partition_count).rev();
 
         if partitions.len() != partition_count {
